@@ -79,4 +79,12 @@ def scenario_st(draw, shapes, max_n=24, weight_kinds=("none", "int", "dyadic", "
                                        min_size=1, max_size=3, unique=True))
         query["measure"] = {"var": "x", "stats": list(kinds),
                             "valid_counts": draw(st.booleans())}
-    return {"survey": survey, "query": query, "shape": list(shape)}
+    # outputs to read BEFORE the ones under test (access-order sensitivity)
+    mode = draw(st.integers(0, 7))
+    if mode == 0:
+        warm = [-draw(st.integers(1, 199))]          # all other outputs, drawn rotation
+    elif mode <= 3:
+        warm = draw(st.lists(st.integers(0, 199), max_size=8))
+    else:
+        warm = []
+    return {"survey": survey, "query": query, "shape": list(shape), "warmup": warm}
